@@ -41,12 +41,31 @@ Proof. exact reaches_cycle_error_strict. Qed.
 Theorem acyclic_cells_normal : forall P s fin c,
   strict_prog P -> wf_init P s -> complete_run P s fin ->
   ~ reaches_cycle P (val s) c -> exists n, scr P (val s) n c = Some (val fin c).
-Proof. exact not_reaching_cycle_normal. Qed.
+Proof. intros P s fin c Hs. apply not_reaching_cycle_normal. apply strict_prog_cre. exact Hs. Qed.
 
 Theorem acyclic_cells_normal_value : forall P s fin c n v,
   strict_prog P -> wf_init P s -> complete_run P s fin ->
   scr P (val s) n c = Some v -> val fin c = v.
 Proof. intros. eapply acyclic_cells_normal_strict; eassumption. Qed.
+
+(* The same three statements for formulas with exception handlers that do not catch CircularRefError. *)
+Theorem reaching_cycle_cells_error_handlers : forall P s fin c,
+  cre_strict_prog P -> wf_init P s -> complete_run P s fin ->
+  reaches_cycle P (val s) c -> val fin c = VErr CircularRef.
+Proof. exact reaches_cycle_error_cre. Qed.
+
+Theorem cycle_cells_error_handlers : forall P s fin c,
+  cre_strict_prog P -> wf_init P s -> complete_run P s fin ->
+  on_cycle P (val s) c -> val fin c = VErr CircularRef.
+Proof.
+  intros P s fin c Hs Hw H1 Hc. eapply reaches_cycle_error_cre; try eassumption.
+  apply on_cycle_reaches_cycle. exact Hc.
+Qed.
+
+Theorem acyclic_cells_normal_handlers : forall P s fin c,
+  cre_strict_prog P -> wf_init P s -> complete_run P s fin ->
+  ~ reaches_cycle P (val s) c -> exists n, scr P (val s) n c = Some (val fin c).
+Proof. exact not_reaching_cycle_normal. Qed.
 
 (* the notions fit together: a cell on a cycle reaches a cycle; an evaluable cell does not *)
 Theorem on_cycle_reaches : forall P v0 c, on_cycle P v0 c -> reaches_cycle P v0 c.
